@@ -1,6 +1,7 @@
 package main
 
 import (
+	"fmt"
 	"go/ast"
 	"go/types"
 	"sort"
@@ -9,6 +10,7 @@ import (
 
 func init() {
 	reg("C05.panic", rulePanicInventory)
+	reg("C05.recursion", ruleRecursion)
 	regWitness(
 		Witness{Rule: "C05.panic", Name: "panic-in-stage2", File: "stage2_build_tape_amd64.go", Old: "\t\t//panic(\"cannot peek the size\") // should never happen", New: "\t\tpanic(\"cannot peek the size\") // should never happen", Breaks: "a string whose opening quote is the last index of a buffer panics instead of being handled"},
 		Witness{Rule: "C05.panic", Name: "panic-in-accessor", File: "parsed_json.go", After: "func (i *Iter) Bool() (bool, error) {", Old: "\treturn false, fmt.Errorf(\"value is not bool, but %v\", i.t)", New: "\tpanic(fmt.Errorf(\"value is not bool, but %v\", i.t))", Breaks: "Bool() on a non-boolean panics"},
@@ -131,4 +133,102 @@ func rulePanicInventory(c *Ctx) {
 	for _, n := range []string{"mult128bitPow10", "mult64bitPow10", "ryuFtoaShortest"} {
 		c.Inv("panic:vetted:"+n, "", vettedPanics[n])
 	}
+}
+
+// C05.recursion — the traversal, lookup and marshalling API must not recurse to a depth the document controls: the parser
+// accepts any nesting depth and any number of adjacent deleted members, the goroutine stack is finite (1 GB), and a stack
+// overflow is a fatal error no caller can recover from. Every cycle of the static call graph (function values included)
+// that is reachable from the API is an obligation: it is a finding unless its depth is bounded by a stated reason.
+var vettedCycles = map[string]string{}
+
+func ruleRecursion(c *Ctx) {
+	p := c.G()
+	roots := append([]string{"Parse", "ParseND", "Object.DeleteElems", "Array.DeleteElems", "Iter.FindElement", "ParsedJson.Clone"}, corruptScope...)
+	set, missing := closureOf(p, roots)
+	for _, m := range missing {
+		c.Unresolved(m, "function in the API scope not found")
+	}
+	name := func(fd *ast.FuncDecl) string { return p.FuncNameOf(fd) }
+	var nodes []*ast.FuncDecl
+	for fd := range set {
+		nodes = append(nodes, fd)
+	}
+	sort.Slice(nodes, func(i, j int) bool { return name(nodes[i]) < name(nodes[j]) })
+	succ := map[*ast.FuncDecl][]*ast.FuncDecl{}
+	for _, fd := range nodes {
+		for _, cal := range localCallees(p, fd) {
+			if set[cal] {
+				succ[fd] = append(succ[fd], cal)
+			}
+		}
+	}
+	// Tarjan
+	index, low := map[*ast.FuncDecl]int{}, map[*ast.FuncDecl]int{}
+	on := map[*ast.FuncDecl]bool{}
+	var stack []*ast.FuncDecl
+	var sccs [][]*ast.FuncDecl
+	k := 0
+	var strong func(v *ast.FuncDecl)
+	strong = func(v *ast.FuncDecl) {
+		k++
+		index[v], low[v] = k, k
+		stack = append(stack, v)
+		on[v] = true
+		for _, w := range succ[v] {
+			if index[w] == 0 {
+				strong(w)
+				if low[w] < low[v] {
+					low[v] = low[w]
+				}
+			} else if on[w] && index[w] < low[v] {
+				low[v] = index[w]
+			}
+		}
+		if low[v] == index[v] {
+			var comp []*ast.FuncDecl
+			for {
+				w := stack[len(stack)-1]
+				stack = stack[:len(stack)-1]
+				on[w] = false
+				comp = append(comp, w)
+				if w == v {
+					break
+				}
+			}
+			sccs = append(sccs, comp)
+		}
+	}
+	for _, v := range nodes {
+		if index[v] == 0 {
+			strong(v)
+		}
+	}
+	nCycles := 0
+	for _, comp := range sccs {
+		self := false
+		if len(comp) == 1 {
+			for _, w := range succ[comp[0]] {
+				if w == comp[0] {
+					self = true
+				}
+			}
+			if !self {
+				continue
+			}
+		}
+		nCycles++
+		var ns []string
+		for _, fd := range comp {
+			ns = append(ns, name(fd))
+		}
+		sort.Strings(ns)
+		site := "cycle:" + strings.Join(ns, "+")
+		if why, ok := vettedCycles[site]; ok {
+			c.Ok(site, p.Pos(comp[0]), "recursion of bounded depth: "+why)
+			continue
+		}
+		c.Bad(site, p.Pos(comp[0]), "the API recurses through "+strings.Join(ns, " → ")+" once per nesting level / adjacent deleted entry of the document; nothing bounds that number (the parser has no depth limit), so a large enough accepted document ends the process with a stack overflow", "an accepted document nested 1,000,000 levels deep (6 MB of `{\"a\":`), or 12,000,000 adjacent deleted members")
+	}
+	c.Ok("scope", "", fmt.Sprintf("%d functions reachable from the API, %d call-graph cycles", len(nodes), nCycles))
+	c.MinCount("functions reachable from the API", len(nodes), 60)
 }
